@@ -542,14 +542,17 @@ class Ovld:
                 self.dispatch.__code__ = rename_code(
                     dispatch.__code__, self.shortname
                 )
+                # Inside the try: an interrupt between the installation of
+                # the entry point and these flags must not leave a function
+                # that is in service but does not know it (later changes
+                # would then never rebuild it)
+                self._compiled = True
+                self._stale = False
             except BaseException:
                 # Never leave a partially filled table in service: go back
                 # to the state where the next call builds everything again
                 self._reset_dispatch()
                 raise
-
-            self._compiled = True
-            self._stale = False
 
     def _reset_dispatch(self):
         """Go back to the unbuilt state: the next call builds again."""
